@@ -747,10 +747,13 @@ DefFwS == [pid |-> "INT", at |-> "INT", dom |-> 0, mint |-> "NONE", caller |-> "
            rcp |-> "NONE", hook |-> "NONE", gas |-> 0, maxfee |-> 0, mfd |-> "uusdc", meta |-> "NONE", to |-> "U", pt |-> 0]
 \* identifier entry points (C20): what each entry point answers for counterparty spelling e
 PidNum(p) == CASE p = "IBC" -> "1" [] p = "CCTP" -> "2" [] p = "HYP" -> "3" [] p = "INT" -> "4" [] OTHER -> "0"
+\* two valid identifiers of the protocol that no grid spelling equals (batch entry points)
+FreshCps(p) == CASE p = "IBC" -> {"channel-4000000", "channel-4000001"} [] p = "INT" -> {"fresh-a", "fresh-b"} [] OTHER -> {"4000000", "4000001"}
 IdentModel(s, in) ==
   [i \in DOMAIN in.ids |->
      LET e == in.ids[i]
          valid == in.pid \in ProtoNames /\ ValidCp(in.pid, e.chars)
+         batch == valid /\ e.cp \notin FreshCps(in.pid) /\ ~\E c \in FreshCps(in.pid) \cup {e.cp} : <<in.pid, c>> \in s.pCC
          run == valid /\ e.dom >= 0 /\ in.pid \in {"CCTP", "HYP"}
          probe == IF in.pid = "CCTP" THEN [DefFwS EXCEPT !.pid = "CCTP", !.at = "CCTP", !.dom = e.dom, !.mint = "MINT_A"]
                   ELSE [DefFwS EXCEPT !.pid = "HYP", !.at = "HYP", !.dom = e.dom, !.tok = "T1", !.rcp = "R_A"]
@@ -763,7 +766,8 @@ IdentModel(s, in) ==
                    /\ Recv(s, [t |-> "recv", chan |-> 0, rcv |-> "ORB", dn |-> "RET", base |-> "uusdc", amt |-> 1000,
                                amtc |-> "OK", mk |-> "PAYLOAD", fw |-> probe, acts |-> <<>>, faults |-> <<>>,
                                aid |-> "", op |-> ""]).ok,
-         listed |-> valid /\ <<in.pid, e.cp>> \notin s.pCC /\ ~\E x \in s.pCC : x[1] = in.pid]]
+         listed |-> valid /\ <<in.pid, e.cp>> \notin s.pCC /\ ~\E x \in s.pCC : x[1] = in.pid,
+         batchFirstOk |-> batch, batchMidOk |-> batch]]
 
 ModelStep(pre, in) ==
   LET r == Apply(pre, in)
